@@ -159,8 +159,11 @@ func checkCase(c Case) error {
 		q := total / d
 		fl := math.Floor(q)
 		wantN = []int{int(fl) + 1}
-		// when total/d is within 1e-9 of an integer either neighbouring count is accepted
-		if r := math.Round(q); math.Abs(q-r) <= 1e-9*math.Max(1, q) {
+		// when total/d is within 1e-9 of an integer - but not exactly that integer - either neighbouring
+		// count is accepted (one ulp in the summed length decides it). When the float quotient IS an integer
+		// (d divides the length exactly, a case the property's quantifier names, e.g. d == length) the count
+		// must be exactly floor(q)+1: total is accumulated left to right like the statement's "length".
+		if r := math.Round(q); q != r && math.Abs(q-r) <= 1e-9*math.Max(1, q) {
 			wantN = []int{int(r), int(r) + 1}
 			if r == 0 {
 				wantN = []int{1}
